@@ -137,6 +137,10 @@ func (c *gengoCtx) pkgChanged(pkgPath string) bool {
 	if previous == nil || current == nil {
 		return true
 	}
+	if current.Sum(pkgPath) == "" {
+		// the directory could not be hashed: there is nothing to compare, never trust the cache
+		return true
+	}
 	return previous.Sum(pkgPath) != current.Sum(pkgPath)
 }
 
